@@ -83,27 +83,65 @@ theorem nxthdr_ok (base ctl off : Nat) (h : Hdr) (hok : cmsgOk ctl off h = true)
   · rw [if_pos (by omega), if_pos hc]
   · rw [if_neg (by omega), if_neg hc]
 
-theorem hdrStep_rights_ok (base ctl off : Nat) (m : List Nat) (h : Hdr) (hr : isRights h = true)
+theorem hdrStepOrig_rights_ok (base ctl off : Nat) (m : List Nat) (h : Hdr) (hr : isRights h = true)
     (hok : cmsgOk ctl off h = true) (hoff : off + HDR ≤ ctl) (hm : ctl ≤ off + m.length)
     (hctl : ctl < 2 ^ 63) (hb : base + ctl < U64) :
-    hdrStep base ctl off m h =
+    hdrStepOrig base ctl off m h =
       .ok (some (groups4 ((h.len - HDR) / FD) (m.drop HDR)), [(off, HDR), (off + HDR, FD * ((h.len - HDR) / FD))],
         if ctl ≤ off + cmsgAlign h.len + HDR then none else some (cmsgAlign h.len)) := by
   have hnx := nxthdr_ok base ctl off h hok hoff hctl hb
   rw [cmsgOk_iff] at hok
   rw [isRights_iff] at hr
-  simp only [hdrStep, if_pos hr, hnx]
+  simp only [hdrStepOrig, if_pos hr, hnx]
   simp only [HDR, FD, U64, ISIZE_MAX] at *
   rw [if_neg (by omega), if_neg (by omega), if_neg (by omega), if_neg (by simp only [List.length_drop]; omega)]
 
-theorem hdrStep_foreign_ok (base ctl off : Nat) (m : List Nat) (h : Hdr) (hr : isRights h = false)
+theorem hdrStepOrig_foreign_ok (base ctl off : Nat) (m : List Nat) (h : Hdr) (hr : isRights h = false)
     (hok : cmsgOk ctl off h = true) (hoff : off + HDR ≤ ctl) (hctl : ctl < 2 ^ 63) (hb : base + ctl < U64) :
-    hdrStep base ctl off m h =
+    hdrStepOrig base ctl off m h =
       .ok (none, [(off, HDR)], if ctl ≤ off + cmsgAlign h.len + HDR then none else some (cmsgAlign h.len)) := by
   have hnx := nxthdr_ok base ctl off h hok hoff hctl hb
   have hr' : ¬ (h.typ = SCM_RIGHTS ∧ h.level = SOL_SOCKET) := by
     intro hc; rw [(isRights_iff h).mpr hc] at hr; cases hr
-  simp only [hdrStep, if_neg hr', hnx]
+  simp only [hdrStepOrig, if_neg hr', hnx]
+
+theorem hdrStep_false (base ctl off : Nat) (m : List Nat) (h : Hdr) :
+    hdrStep false base ctl off m h = hdrStepOrig base ctl off m h := by
+  simp only [hdrStep, Bool.false_eq_true, if_false]
+
+/-- on a header that is CMSG_OK the repaired code does what the code did before -/
+theorem hdrStep_of_ok (fixed : Bool) (base ctl off : Nat) (m : List Nat) (h : Hdr) (hok : cmsgOk ctl off h = true)
+    (hb : base + ctl < U64) : hdrStep fixed base ctl off m h = hdrStepOrig base ctl off m h := by
+  rw [cmsgOk_iff] at hok
+  cases fixed with
+  | false => exact hdrStep_false base ctl off m h
+  | true =>
+    simp only [hdrStep, if_true]
+    rw [if_neg (by omega), if_neg (by simp only [HDR] at *; omega)]
+
+/-- on a header that is not CMSG_OK the repaired code stops: nothing yielded, nothing further read -/
+theorem hdrStep_true_not_ok (base ctl off : Nat) (m : List Nat) (h : Hdr) (hnok : cmsgOk ctl off h = false)
+    (hb : base + ctl < U64) : hdrStep true base ctl off m h = .ok (none, [(off, HDR)], none) := by
+  have hn : ¬ (HDR ≤ h.len ∧ h.len ≤ ctl - off) := by
+    intro hc; rw [(cmsgOk_iff ctl off h).mpr hc] at hnok; cases hnok
+  simp only [hdrStep, if_true]
+  rw [if_neg (by omega), if_pos (by simp only [HDR] at *; omega)]
+
+theorem hdrStep_rights_ok (fixed : Bool) (base ctl off : Nat) (m : List Nat) (h : Hdr) (hr : isRights h = true)
+    (hok : cmsgOk ctl off h = true) (hoff : off + HDR ≤ ctl) (hm : ctl ≤ off + m.length)
+    (hctl : ctl < 2 ^ 63) (hb : base + ctl < U64) :
+    hdrStep fixed base ctl off m h =
+      .ok (some (groups4 ((h.len - HDR) / FD) (m.drop HDR)), [(off, HDR), (off + HDR, FD * ((h.len - HDR) / FD))],
+        if ctl ≤ off + cmsgAlign h.len + HDR then none else some (cmsgAlign h.len)) := by
+  rw [hdrStep_of_ok fixed base ctl off m h hok hb]
+  exact hdrStepOrig_rights_ok base ctl off m h hr hok hoff hm hctl hb
+
+theorem hdrStep_foreign_ok (fixed : Bool) (base ctl off : Nat) (m : List Nat) (h : Hdr) (hr : isRights h = false)
+    (hok : cmsgOk ctl off h = true) (hoff : off + HDR ≤ ctl) (hctl : ctl < 2 ^ 63) (hb : base + ctl < U64) :
+    hdrStep fixed base ctl off m h =
+      .ok (none, [(off, HDR)], if ctl ≤ off + cmsgAlign h.len + HDR then none else some (cmsgAlign h.len)) := by
+  rw [hdrStep_of_ok fixed base ctl off m h hok hb]
+  exact hdrStepOrig_foreign_ok base ctl off m h hr hok hoff hctl hb
 
 theorem kfill_facts (msgs : List (List Nat)) : ∀ (rem : Nat) (g : List Nat), rem ≤ g.length →
     (kfill msgs rem g).2 ≤ rem ∧ ((kfill msgs rem g).2 = 0 ∨ 20 ≤ (kfill msgs rem g).2) ∧
@@ -134,12 +172,12 @@ theorem kfill_facts (msgs : List (List Nat)) : ∀ (rem : Nat) (g : List Nat), r
 
 def FdsOk (msgs : List (List Nat)) : Prop := ∀ fds ∈ msgs, ∀ f ∈ fds, f < 256 ^ 4
 
-theorem iter_kfill (base : Nat) (msgs : List (List Nat)) : ∀ (rem : Nat) (g : List Nat) (fuel off : Nat),
+theorem iter_kfill (fixed : Bool) (base : Nat) (msgs : List (List Nat)) : ∀ (rem : Nat) (g : List Nat) (fuel off : Nat),
     rem ≤ g.length → off + rem < 2 ^ 63 → base + off + rem < U64 → FdsOk msgs →
     0 < (kfill msgs rem g).2 → (kfill msgs rem g).2 < fuel →
-    (iterFrom fuel base (off + (kfill msgs rem g).2) off (kfill msgs rem g).1).msgs = delivered msgs rem ∧
-    (iterFrom fuel base (off + (kfill msgs rem g).2) off (kfill msgs rem g).1).bad = none ∧
-    ∀ x ∈ (iterFrom fuel base (off + (kfill msgs rem g).2) off (kfill msgs rem g).1).reads,
+    (iterFrom fixed fuel base (off + (kfill msgs rem g).2) off (kfill msgs rem g).1).msgs = delivered msgs rem ∧
+    (iterFrom fixed fuel base (off + (kfill msgs rem g).2) off (kfill msgs rem g).1).bad = none ∧
+    ∀ x ∈ (iterFrom fixed fuel base (off + (kfill msgs rem g).2) off (kfill msgs rem g).1).reads,
       off ≤ x.1 ∧ x.1 + x.2 ≤ off + (kfill msgs rem g).2 := by
   induction msgs with
   | nil => intro rem g fuel off _ _ _ _ h; simp [kfill] at h
@@ -212,7 +250,7 @@ theorem iter_kfill (base : Nat) (msgs : List (List Nat)) : ∀ (rem : Nat) (g : 
         have hmlen : (encHdr (16 + 4 * k) SOL_SOCKET SCM_RIGHTS ++ (encFds (fds.take k) ++ (pad ++ r1))).length =
             adv + (g.drop adv).length := by
           simp only [List.length_append, encHdr_length, encFds_length, htk, hpadlen, f4, HDR, FD]; omega
-        have hstep := hdrStep_rights_ok base (off + (adv + r2)) off
+        have hstep := hdrStep_rights_ok fixed base (off + (adv + r2)) off
           (encHdr (16 + 4 * k) SOL_SOCKET SCM_RIGHTS ++ (encFds (fds.take k) ++ (pad ++ r1))) ⟨16 + 4 * k, SOL_SOCKET, SCM_RIGHTS⟩
           (by rw [isRights_iff]; exact ⟨rfl, rfl⟩) (by rw [cmsgOk_iff]; simp only [HDR]; omega) (by simp only [HDR]; omega)
           (by rw [hmlen]; simp only [List.length_drop]; omega) (by omega) (by simp only [U64] at hbase ⊢; omega)
@@ -250,8 +288,8 @@ theorem iter_kfill (base : Nat) (msgs : List (List Nat)) : ∀ (rem : Nat) (g : 
 /-! ### the iterator against the CMSG_OK walk, for EVERY memory content -/
 
 /-- what the iterator does with the header `h` at `o` when `cmsg_nxthdr!` ends the walk there -/
-def lastStep (base ctl o : Nat) (m : List Nat) (h : Hdr) : IterOut :=
-  match hdrStep base ctl o m h with
+def lastStep (fixed : Bool) (base ctl o : Nat) (m : List Nat) (h : Hdr) : IterOut :=
+  match hdrStep fixed base ctl o m h with
   | .error out => out
   | .ok (item, rd, _) => ⟨item.toList, rd, none⟩
 
@@ -274,46 +312,69 @@ theorem nxthdr_not_ok (base ctl off : Nat) (h : Hdr) (hnok : cmsgOk ctl off h = 
     | skip
   all_goals (intro hc; omega)
 
-theorem hdrStep_not_ok_next (base ctl off : Nat) (m : List Nat) (h : Hdr) (hnok : cmsgOk ctl off h = false)
+theorem hdrStepOrig_not_ok_next (base ctl off : Nat) (m : List Nat) (h : Hdr) (hnok : cmsgOk ctl off h = false)
     (item : Option (List Nat)) (rd : List (Nat × Nat)) (nx : Option Nat)
-    (hs : hdrStep base ctl off m h = .ok (item, rd, nx)) : nx = none := by
+    (hs : hdrStepOrig base ctl off m h = .ok (item, rd, nx)) : nx = none := by
   cases nx with
   | none => rfl
   | some d =>
     exfalso
     have hno := nxthdr_not_ok base ctl off h hnok d
-    simp only [hdrStep] at hs
+    simp only [hdrStepOrig] at hs
     repeat' split at hs
     all_goals first
       | (cases hs; done)
       | (cases hs; exact hno (by assumption))
 
-theorem iterFrom_malformed (fuel base ctl off : Nat) (m : List Nat) (h : Hdr) (hdec : decHdr m = some h)
-    (hnok : cmsgOk ctl off h = false) : iterFrom (fuel + 1) base ctl off m = lastStep base ctl off m h := by
+theorem hdrStep_cases (fixed : Bool) (base ctl off : Nat) (m : List Nat) (h : Hdr) :
+    hdrStep fixed base ctl off m h = hdrStepOrig base ctl off m h ∨
+    hdrStep fixed base ctl off m h = .error ⟨[], [(off, HDR)], some .panic⟩ ∨
+    hdrStep fixed base ctl off m h = .ok (none, [(off, HDR)], none) := by
+  cases fixed with
+  | false => left; exact hdrStep_false base ctl off m h
+  | true =>
+    simp only [hdrStep, if_true]
+    split
+    · right; left; rfl
+    · split
+      · right; right; rfl
+      · left; rfl
+
+theorem hdrStep_not_ok_next (fixed : Bool) (base ctl off : Nat) (m : List Nat) (h : Hdr)
+    (hnok : cmsgOk ctl off h = false) (item : Option (List Nat)) (rd : List (Nat × Nat)) (nx : Option Nat)
+    (hs : hdrStep fixed base ctl off m h = .ok (item, rd, nx)) : nx = none := by
+  rcases hdrStep_cases fixed base ctl off m h with hc | hc | hc
+  · rw [hc] at hs; exact hdrStepOrig_not_ok_next base ctl off m h hnok item rd nx hs
+  · rw [hc] at hs; cases hs
+  · rw [hc] at hs; cases hs; rfl
+
+theorem iterFrom_malformed (fixed : Bool) (fuel base ctl off : Nat) (m : List Nat) (h : Hdr) (hdec : decHdr m = some h)
+    (hnok : cmsgOk ctl off h = false) :
+    iterFrom fixed (fuel + 1) base ctl off m = lastStep fixed base ctl off m h := by
   simp only [iterFrom, hdec, lastStep]
-  cases hs : hdrStep base ctl off m h with
+  cases hs : hdrStep fixed base ctl off m h with
   | error o => rfl
   | ok v =>
     obtain ⟨item, rd, nx⟩ := v
-    have := hdrStep_not_ok_next base ctl off m h hnok item rd nx hs
+    have := hdrStep_not_ok_next fixed base ctl off m h hnok item rd nx hs
     subst this
     simp
 
 /-- the relation between the CMSG_OK walk `w` and the run `r` of the iterator, both started at offset `lo` -/
-def WalkPost (base : Nat) (mem : List Nat) (ctl lo : Nat) (w : List (Nat × Hdr) × Stop) (r : IterOut) : Prop :=
+def WalkPost (fixed : Bool) (base : Nat) (mem : List Nat) (ctl lo : Nat) (w : List (Nat × Hdr) × Stop) (r : IterOut) : Prop :=
   match w.2 with
   | .done => ∃ pre, r = ⟨rightsOf mem w.1, pre, none⟩ ∧ ∀ x ∈ pre, lo ≤ x.1 ∧ x.1 + x.2 ≤ ctl
   | .malformed o h =>
-    ∃ pre, r = ⟨rightsOf mem w.1 ++ (lastStep base ctl o (mem.drop o) h).msgs,
-                pre ++ (lastStep base ctl o (mem.drop o) h).reads, (lastStep base ctl o (mem.drop o) h).bad⟩ ∧
+    ∃ pre, r = ⟨rightsOf mem w.1 ++ (lastStep fixed base ctl o (mem.drop o) h).msgs,
+                pre ++ (lastStep fixed base ctl o (mem.drop o) h).reads, (lastStep fixed base ctl o (mem.drop o) h).bad⟩ ∧
       (∀ x ∈ pre, lo ≤ x.1 ∧ x.1 + x.2 ≤ o) ∧ lo ≤ o ∧ o + HDR ≤ ctl ∧ decHdr (mem.drop o) = some h ∧
       cmsgOk ctl o h = false
   | .unmapped => False
   | .fuel => False
 
-theorem iter_walk (base : Nat) (mem : List Nat) (ctl : Nat) (hmem : ctl ≤ mem.length) (hctl : ctl < 2 ^ 63)
+theorem iter_walk (fixed : Bool) (base : Nat) (mem : List Nat) (ctl : Nat) (hmem : ctl ≤ mem.length) (hctl : ctl < 2 ^ 63)
     (hb : base + ctl < U64) : ∀ (fuel fuel' off : Nat), off + HDR ≤ ctl → ctl - off < fuel → ctl - off < fuel' →
-    WalkPost base mem ctl off (wfWalk uNext fuel' mem ctl off) (iterFrom fuel base ctl off (mem.drop off)) := by
+    WalkPost fixed base mem ctl off (wfWalk uNext fuel' mem ctl off) (iterFrom fixed fuel base ctl off (mem.drop off)) := by
   intro fuel
   induction fuel with
   | zero => intro fuel' off _ h; omega
@@ -323,7 +384,7 @@ theorem iter_walk (base : Nat) (mem : List Nat) (ctl : Nat) (hmem : ctl ≤ mem.
     obtain ⟨h, hdec⟩ := decHdr_some (mem.drop off) (by simp only [List.length_drop]; omega)
     cases hok : cmsgOk ctl off h with
     | false =>
-      rw [iterFrom_malformed fuel base ctl off _ h hdec hok]
+      rw [iterFrom_malformed fixed fuel base ctl off _ h hdec hok]
       simp only [wfWalk, hdec, hok, WalkPost]
       refine ⟨[], ?_, ?_, Nat.le_refl _, hoff, hdec, hok⟩
       · simp [rightsOf]
@@ -338,7 +399,7 @@ theorem iter_walk (base : Nat) (mem : List Nat) (ctl : Nat) (hmem : ctl ≤ mem.
         simp only [wfWalk, hdec, hok, hu, WalkPost, if_true]
         cases hr : isRights h with
         | true =>
-          have hs := hdrStep_rights_ok base ctl off (mem.drop off) h hr hok hoff hmlen hctl hb
+          have hs := hdrStep_rights_ok fixed base ctl off (mem.drop off) h hr hok hoff hmlen hctl hb
           rw [if_pos hc] at hs
           refine ⟨[(off, HDR), (off + HDR, FD * ((h.len - HDR) / FD))], ?_, ?_⟩
           · simp only [iterFrom, hdec, hs, rightsOf, hr, if_true, Option.toList, List.drop_drop, List.append_nil,
@@ -348,7 +409,7 @@ theorem iter_walk (base : Nat) (mem : List Nat) (ctl : Nat) (hmem : ctl ≤ mem.
             simp only [HDR, FD] at *
             rcases hx with rfl | rfl <;> simp only <;> omega
         | false =>
-          have hs := hdrStep_foreign_ok base ctl off (mem.drop off) h hr hok hoff hctl hb
+          have hs := hdrStep_foreign_ok fixed base ctl off (mem.drop off) h hr hok hoff hctl hb
           rw [if_pos hc] at hs
           refine ⟨[(off, HDR)], ?_, ?_⟩
           · simp [iterFrom, hdec, hs, rightsOf, hr, Option.toList]
@@ -361,13 +422,13 @@ theorem iter_walk (base : Nat) (mem : List Nat) (ctl : Nat) (hmem : ctl ≤ mem.
           (by simp only [HDR] at *; omega)
         simp only [wfWalk, hdec, hok, hu, if_true]
         generalize hw : wfWalk uNext fuel' mem ctl (off + cmsgAlign h.len) = w at hrec ⊢
-        generalize hrr : iterFrom fuel base ctl (off + cmsgAlign h.len) (mem.drop (off + cmsgAlign h.len)) = rr at hrec
+        generalize hrr : iterFrom fixed fuel base ctl (off + cmsgAlign h.len) (mem.drop (off + cmsgAlign h.len)) = rr at hrec
         obtain ⟨wl, ws⟩ := w
         cases hr : isRights h with
         | true =>
-          have hs := hdrStep_rights_ok base ctl off (mem.drop off) h hr hok hoff hmlen hctl hb
+          have hs := hdrStep_rights_ok fixed base ctl off (mem.drop off) h hr hok hoff hmlen hctl hb
           rw [if_neg hc] at hs
-          have hit : iterFrom (fuel + 1) base ctl off (mem.drop off) =
+          have hit : iterFrom fixed (fuel + 1) base ctl off (mem.drop off) =
               ⟨groups4 ((h.len - HDR) / FD) (mem.drop (off + HDR)) :: rr.msgs,
                (off, HDR) :: (off + HDR, FD * ((h.len - HDR) / FD)) :: rr.reads, rr.bad⟩ := by
             simp only [iterFrom, hdec, hs, Option.toList, List.drop_drop, hrr, List.singleton_append, List.cons_append,
@@ -401,9 +462,9 @@ theorem iter_walk (base : Nat) (mem : List Nat) (ctl : Nat) (hmem : ctl ≤ mem.
           | unmapped => simp only [WalkPost] at hrec
           | fuel => simp only [WalkPost] at hrec
         | false =>
-          have hs := hdrStep_foreign_ok base ctl off (mem.drop off) h hr hok hoff hctl hb
+          have hs := hdrStep_foreign_ok fixed base ctl off (mem.drop off) h hr hok hoff hctl hb
           rw [if_neg hc] at hs
-          have hit : iterFrom (fuel + 1) base ctl off (mem.drop off) = ⟨rr.msgs, (off, HDR) :: rr.reads, rr.bad⟩ := by
+          have hit : iterFrom fixed (fuel + 1) base ctl off (mem.drop off) = ⟨rr.msgs, (off, HDR) :: rr.reads, rr.bad⟩ := by
             simp only [iterFrom, hdec, hs, Option.toList, List.drop_drop, hrr, List.singleton_append, List.cons_append,
               List.nil_append]
           rw [hit]
@@ -443,10 +504,10 @@ theorem nxthdr_some (base ctl off : Nat) (h : Hdr) (d : Nat) (hs : nxthdr base c
     | (cases hs; done)
     | (cases hs; refine ⟨rfl, by omega, by omega⟩)
 
-theorem hdrStep_next (base ctl off : Nat) (m : List Nat) (h : Hdr) (item : Option (List Nat)) (rd : List (Nat × Nat))
-    (d : Nat) (hs : hdrStep base ctl off m h = .ok (item, rd, some d)) : HDR ≤ d ∧ d + HDR < ctl - off := by
+theorem hdrStepOrig_next (base ctl off : Nat) (m : List Nat) (h : Hdr) (item : Option (List Nat)) (rd : List (Nat × Nat))
+    (d : Nat) (hs : hdrStepOrig base ctl off m h = .ok (item, rd, some d)) : HDR ≤ d ∧ d + HDR < ctl - off := by
   have key : nxthdr base ctl off h = .ok (some d) := by
-    simp only [hdrStep] at hs
+    simp only [hdrStepOrig] at hs
     repeat' split at hs
     all_goals first
       | (cases hs; done)
@@ -462,17 +523,32 @@ theorem nxthdr_error (base ctl off : Nat) (h : Hdr) (b : Bad) (hs : nxthdr base 
     | (cases hs; done)
     | (cases hs; rfl)
 
-theorem hdrStep_error_bad (base ctl off : Nat) (m : List Nat) (h : Hdr) (o : IterOut)
-    (hs : hdrStep base ctl off m h = .error o) : o.bad ≠ some .fuel ∧ o.bad ≠ none := by
-  simp only [hdrStep] at hs
+theorem hdrStepOrig_error_bad (base ctl off : Nat) (m : List Nat) (h : Hdr) (o : IterOut)
+    (hs : hdrStepOrig base ctl off m h = .error o) : o.bad ≠ some .fuel ∧ o.bad ≠ none := by
+  simp only [hdrStepOrig] at hs
   repeat' split at hs
   all_goals first
     | (cases hs; done)
     | (cases hs; rename_i b hb; have := nxthdr_error base ctl off h b hb; subst this; exact ⟨by simp, by simp⟩)
     | (cases hs; refine ⟨?_, ?_⟩ <;> simp)
 
-theorem iterFrom_no_fuel (base ctl : Nat) : ∀ (fuel off : Nat) (m : List Nat), ctl - off < fuel →
-    (iterFrom fuel base ctl off m).bad ≠ some .fuel := by
+theorem hdrStep_next (fixed : Bool) (base ctl off : Nat) (m : List Nat) (h : Hdr) (item : Option (List Nat))
+    (rd : List (Nat × Nat)) (d : Nat) (hs : hdrStep fixed base ctl off m h = .ok (item, rd, some d)) :
+    HDR ≤ d ∧ d + HDR < ctl - off := by
+  rcases hdrStep_cases fixed base ctl off m h with hc | hc | hc
+  · rw [hc] at hs; exact hdrStepOrig_next base ctl off m h item rd d hs
+  · rw [hc] at hs; cases hs
+  · rw [hc] at hs; cases hs
+
+theorem hdrStep_error_bad (fixed : Bool) (base ctl off : Nat) (m : List Nat) (h : Hdr) (o : IterOut)
+    (hs : hdrStep fixed base ctl off m h = .error o) : o.bad ≠ some .fuel ∧ o.bad ≠ none := by
+  rcases hdrStep_cases fixed base ctl off m h with hc | hc | hc
+  · rw [hc] at hs; exact hdrStepOrig_error_bad base ctl off m h o hs
+  · rw [hc] at hs; cases hs; exact ⟨by simp, by simp⟩
+  · rw [hc] at hs; cases hs
+
+theorem iterFrom_no_fuel (fixed : Bool) (base ctl : Nat) : ∀ (fuel off : Nat) (m : List Nat), ctl - off < fuel →
+    (iterFrom fixed fuel base ctl off m).bad ≠ some .fuel := by
   intro fuel
   induction fuel with
   | zero => intro off m h; omega
@@ -483,24 +559,24 @@ theorem iterFrom_no_fuel (base ctl : Nat) : ∀ (fuel off : Nat) (m : List Nat),
     | none => simp
     | some h =>
       simp only
-      cases hs : hdrStep base ctl off m h with
-      | error o => exact (hdrStep_error_bad base ctl off m h o hs).1
+      cases hs : hdrStep fixed base ctl off m h with
+      | error o => exact (hdrStep_error_bad fixed base ctl off m h o hs).1
       | ok v =>
         obtain ⟨item, rd, nx⟩ := v
         cases nx with
         | none => simp
         | some d =>
-          have := hdrStep_next base ctl off m h item rd d hs
+          have := hdrStep_next fixed base ctl off m h item rd d hs
           simp only [HDR] at this
           exact ih (off + d) (m.drop d) (by omega)
 
-/-! ### what happens at the first header that is not CMSG_OK -/
+/-! ### what happened at the first header that is not CMSG_OK BEFORE the repair (`fixed = false`) -/
 
 /-- a malformed header NOT tagged SOL_SOCKET/SCM_RIGHTS: the iterator stops there, cleanly — unless `cmsg_len` is within
 23 of 2^64, where the alignment arithmetic of `cmsg_nxthdr!` overflows -/
 theorem lastStep_foreign (base ctl o : Nat) (m : List Nat) (h : Hdr) (hr : isRights h = false)
     (hnok : cmsgOk ctl o h = false) (ho : o + HDR ≤ ctl) (hb : base + ctl < U64)
-    (hsmall : h.len < HDR ∨ h.len + 24 ≤ U64) : lastStep base ctl o m h = ⟨[], [(o, HDR)], none⟩ := by
+    (hsmall : h.len < HDR ∨ h.len + 24 ≤ U64) : lastStep false base ctl o m h = ⟨[], [(o, HDR)], none⟩ := by
   have hr' : ¬ (h.typ = SCM_RIGHTS ∧ h.level = SOL_SOCKET) := by
     intro hc; rw [(isRights_iff h).mpr hc] at hr; cases hr
   have hn : ¬ (HDR ≤ h.len ∧ h.len ≤ ctl - o) := by
@@ -513,10 +589,10 @@ theorem lastStep_foreign (base ctl o : Nat) (m : List Nat) (h : Hdr) (hr : isRig
     by_cases hl : h.len < 16
     · rw [if_pos hl]
     · rw [if_neg hl, if_neg (by omega), if_neg (by omega), if_neg (by omega), if_neg (by omega), if_pos (by omega)]
-  simp only [lastStep, hdrStep, if_neg hr', hnx, Option.toList]
+  simp only [lastStep, hdrStep_false, hdrStepOrig, if_neg hr', hnx, Option.toList]
 
 theorem lastStep_foreign_overflow (base ctl o : Nat) (m : List Nat) (h : Hdr) (hr : isRights h = false)
-    (hbig : U64 ≤ h.len + 23) : lastStep base ctl o m h = ⟨[], [(o, HDR)], some .panic⟩ := by
+    (hbig : U64 ≤ h.len + 23) : lastStep false base ctl o m h = ⟨[], [(o, HDR)], some .panic⟩ := by
   have hr' : ¬ (h.typ = SCM_RIGHTS ∧ h.level = SOL_SOCKET) := by
     intro hc; rw [(isRights_iff h).mpr hc] at hr; cases hr
   have h1 := align_ge h.len
@@ -528,15 +604,15 @@ theorem lastStep_foreign_overflow (base ctl o : Nat) (m : List Nat) (h : Hdr) (h
     by_cases hl : 18446744073709551616 ≤ h.len + 8
     · rw [if_pos hl]
     · rw [if_neg hl, if_pos (by omega)]
-  simp only [lastStep, hdrStep, if_neg hr', hnx]
+  simp only [lastStep, hdrStep_false, hdrStepOrig, if_neg hr', hnx]
 
 /-- a malformed header tagged SOL_SOCKET/SCM_RIGHTS with `cmsg_len < 16`: arithmetic panic -/
 theorem lastStep_rights_short (base ctl o : Nat) (m : List Nat) (h : Hdr) (hr : isRights h = true)
-    (hshort : h.len < HDR) : lastStep base ctl o m h = ⟨[], [(o, HDR)], some .panic⟩ := by
+    (hshort : h.len < HDR) : lastStep false base ctl o m h = ⟨[], [(o, HDR)], some .panic⟩ := by
   rw [isRights_iff] at hr
   by_cases hov : U64 ≤ base + o + h.len
-  · simp only [lastStep, hdrStep, if_pos hr, if_pos hov]
-  · simp only [lastStep, hdrStep, if_pos hr, if_neg hov, if_pos hshort]
+  · simp only [lastStep, hdrStep_false, hdrStepOrig, if_pos hr, if_pos hov]
+  · simp only [lastStep, hdrStep_false, hdrStepOrig, if_pos hr, if_neg hov, if_pos hshort]
 
 /-- a malformed header tagged SOL_SOCKET/SCM_RIGHTS with `cmsg_len` larger than what is left of the buffer (no
 overflow, payload mapped): a slice of `(cmsg_len - 16) / 4` descriptors is handed out — whatever the buffer length -/
@@ -544,7 +620,7 @@ theorem lastStep_rights_long (base ctl o : Nat) (m : List Nat) (h : Hdr) (hr : i
     (hnok : cmsgOk ctl o h = false) (hlong : HDR ≤ h.len) (ho : o + HDR ≤ ctl) (hb : base + ctl < U64)
     (hov : base + o + h.len < U64) (hb24 : 24 ≤ base + o) (hsz : FD * ((h.len - HDR) / FD) ≤ ISIZE_MAX)
     (hmap : FD * ((h.len - HDR) / FD) ≤ (m.drop HDR).length) :
-    lastStep base ctl o m h =
+    lastStep false base ctl o m h =
       ⟨[groups4 ((h.len - HDR) / FD) (m.drop HDR)], [(o, HDR), (o + HDR, FD * ((h.len - HDR) / FD))], none⟩ := by
   have hn : ¬ (HDR ≤ h.len ∧ h.len ≤ ctl - o) := by
     intro hc; rw [(cmsgOk_iff ctl o h).mpr hc] at hnok; cases hnok
@@ -555,7 +631,7 @@ theorem lastStep_rights_long (base ctl o : Nat) (m : List Nat) (h : Hdr) (hr : i
     simp only [HDR, U64] at *
     rw [if_neg (by omega), if_neg (by omega), if_neg (by omega), if_neg (by omega), if_neg (by omega), if_pos (by omega)]
   rw [isRights_iff] at hr
-  simp only [lastStep, hdrStep, if_pos hr, hnx]
+  simp only [lastStep, hdrStep_false, hdrStepOrig, if_pos hr, hnx]
   simp only [HDR, FD, U64, ISIZE_MAX] at *
   rw [if_neg (by omega), if_neg (by omega), if_neg (by omega), if_neg (by omega)]
   simp only [Option.toList]
@@ -565,7 +641,7 @@ theorem lastStep_rights_long_fault (base ctl o : Nat) (m : List Nat) (h : Hdr) (
     (hnok : cmsgOk ctl o h = false) (hlong : HDR ≤ h.len) (ho : o + HDR ≤ ctl) (hb : base + ctl < U64)
     (hov : base + o + h.len < U64) (hb24 : 24 ≤ base + o) (hsz : FD * ((h.len - HDR) / FD) ≤ ISIZE_MAX)
     (hmap : (m.drop HDR).length < FD * ((h.len - HDR) / FD)) :
-    lastStep base ctl o m h = ⟨[], [(o, HDR), (o + HDR, FD * ((h.len - HDR) / FD))], some .fault⟩ := by
+    lastStep false base ctl o m h = ⟨[], [(o, HDR), (o + HDR, FD * ((h.len - HDR) / FD))], some .fault⟩ := by
   have hn : ¬ (HDR ≤ h.len ∧ h.len ≤ ctl - o) := by
     intro hc; rw [(cmsgOk_iff ctl o h).mpr hc] at hnok; cases hnok
   have h1 := align_ge h.len
@@ -575,28 +651,34 @@ theorem lastStep_rights_long_fault (base ctl o : Nat) (m : List Nat) (h : Hdr) (
     simp only [HDR, U64] at *
     rw [if_neg (by omega), if_neg (by omega), if_neg (by omega), if_neg (by omega), if_neg (by omega), if_pos (by omega)]
   rw [isRights_iff] at hr
-  simp only [lastStep, hdrStep, if_pos hr, hnx]
+  simp only [lastStep, hdrStep_false, hdrStepOrig, if_pos hr, hnx]
   simp only [HDR, FD, U64, ISIZE_MAX] at *
   rw [if_neg (by omega), if_neg (by omega), if_neg (by omega), if_pos (by omega)]
 
 /-- a malformed SCM_RIGHTS header never ends the run silently with nothing handed out: crash, or an item built from
 the malformed header -/
 theorem lastStep_rights_never_clean (base ctl o : Nat) (m : List Nat) (h : Hdr) (hr : isRights h = true) :
-    (lastStep base ctl o m h).bad ≠ none ∨ (lastStep base ctl o m h).msgs.length = 1 := by
+    (lastStep false base ctl o m h).bad ≠ none ∨ (lastStep false base ctl o m h).msgs.length = 1 := by
   rw [isRights_iff] at hr
   by_cases c1 : U64 ≤ base + o + h.len
-  · left; simp [lastStep, hdrStep, hr, c1]
+  · left; simp [lastStep, hdrStep_false, hdrStepOrig, hr, c1]
   · by_cases c2 : h.len < HDR
-    · left; simp only [lastStep, hdrStep, if_pos hr, if_neg c1, if_pos c2]; simp
+    · left; simp only [lastStep, hdrStep_false, hdrStepOrig, if_pos hr, if_neg c1, if_pos c2]; simp
     · cases hnx : nxthdr base ctl o h with
-      | error b => left; simp only [lastStep, hdrStep, if_pos hr, if_neg c1, if_neg c2, hnx]; simp
+      | error b => left; simp only [lastStep, hdrStep_false, hdrStepOrig, if_pos hr, if_neg c1, if_neg c2, hnx]; simp
       | ok nx =>
         by_cases c3 : ISIZE_MAX < FD * ((h.len - HDR) / FD)
-        · left; simp only [lastStep, hdrStep, if_pos hr, if_neg c1, if_neg c2, hnx, if_pos c3]; simp
+        · left; simp only [lastStep, hdrStep_false, hdrStepOrig, if_pos hr, if_neg c1, if_neg c2, hnx, if_pos c3]; simp
         · by_cases c4 : (m.drop HDR).length < FD * ((h.len - HDR) / FD)
-          · left; simp only [lastStep, hdrStep, if_pos hr, if_neg c1, if_neg c2, hnx, if_neg c3, if_pos c4]; simp
-          · right; simp only [lastStep, hdrStep, if_pos hr, if_neg c1, if_neg c2, hnx, if_neg c3, if_neg c4]
+          · left; simp only [lastStep, hdrStep_false, hdrStepOrig, if_pos hr, if_neg c1, if_neg c2, hnx, if_neg c3, if_pos c4]; simp
+          · right; simp only [lastStep, hdrStep_false, hdrStepOrig, if_pos hr, if_neg c1, if_neg c2, hnx, if_neg c3, if_neg c4]
             simp [Option.toList]
+
+/-! ### and since the repair (`fixed = true`): the iterator simply stops there -/
+
+theorem lastStep_fixed (base ctl o : Nat) (m : List Nat) (h : Hdr) (hnok : cmsgOk ctl o h = false)
+    (hb : base + ctl < U64) : lastStep true base ctl o m h = ⟨[], [(o, HDR)], none⟩ := by
+  simp only [lastStep, hdrStep_true_not_ok base ctl o m h hnok hb, Option.toList]
 
 theorem createSend_layout (fds : List Nat) :
     createSend fds =
